@@ -96,6 +96,13 @@ def gen(rng, tier):
                             envs = dict(leaves, **f)
                             envs["R"] = {"imports": [("A", True), ("c", True)], "values": []}
                             cases.append(G.case_from_graph(envs, "R"))
+    # imports whose definitions alias their own objects (k: ${obj}): the fold is over the imports' VALUES, so it must hold
+    # whatever expressions produced them; in-place merging through an alias shows up as a key nobody else defines changing
+    from . import c10 as _c10
+    for c in _c10.alias_family():
+        d = dict(c["def"])
+        own_lit = [(k, e) for k, e in d["values"] if not k.startswith("seen_")]
+        cases.append(dict(c, **{"def": {"imports": d["imports"], "values": own_lit}}))
     # random graphs
     ngraphs = 1500 if thorough else 220
     for _ in range(ngraphs):
